@@ -478,6 +478,7 @@ struct Gen<'a> {
     probe_n: usize,
     fns: Vec<FnOut>,
     specs: BTreeMap<String, FnSpec>,
+    force_co: Vec<String>,
     shape_results: Vec<(String, bool, Vec<String>, String)>,
 }
 
@@ -508,6 +509,9 @@ impl<'a> Gen<'a> {
                 }
             }
         }
+        // a function the verifier's front end rejected is kept by contract only (its obligations are then undecided)
+        let forced = self.force_co.contains(&path);
+        let contract_only = contract_only || forced;
         let spec = unit.fns.get(&path).cloned().unwrap_or_default();
         let mut fo = FnOut { path: path.clone(), src: src.to_string(), src_line, contract_only, from_unit: unit.name.clone(), hints: 0, hint_kinds: BTreeMap::new(), loops: 0, return_points: 0, probes: vec![], lowered_sites: 0, dead_probes: vec![] };
         // free function whose first parameter is a shared reference to the struct owning a former cell: it becomes `&mut`
@@ -753,10 +757,11 @@ fn main() {
     if args.first().map(|s| s.as_str()) == Some("--lower-crate") { lower_crate(&args[1..]); return; }
     let mut features: Vec<String> = vec![];
     let mut probes = false;
+    let mut force_co: Vec<String> = vec![];
     let mut pos: Vec<String> = vec![];
     while !args.is_empty() {
         let a = args.remove(0);
-        if a == "--cfg" { features.push(args.remove(0)); } else if a == "--probes" { probes = true; } else { pos.push(a); }
+        if a == "--cfg" { features.push(args.remove(0)); } else if a == "--probes" { probes = true; } else if a == "--contract-only" { force_co.push(args.remove(0)); } else { pos.push(a); }
     }
     if pos.len() != 3 { eprintln!("usage: vx [--cfg FEATURE]... [--probes] REPO UNIT.vspec OUT.rs"); std::process::exit(2); }
     let repo = &pos[0];
@@ -769,7 +774,7 @@ fn main() {
         for n in drop { fs.loops.remove(&n); }
     }
     let mut rules0 = rules::Rules::default(); rules0.extra_drop_derives = unit.drop_derives.clone();
-    let mut gen = Gen { repo, features: &features, probes, rules: rules0, items_ts: TokenStream::new(), all_hints: vec![], hint_base: 0, probe_n: 1, fns: vec![], specs: BTreeMap::new(), shape_results: vec![] };
+    let mut gen = Gen { repo, features: &features, probes, rules: rules0, items_ts: TokenStream::new(), all_hints: vec![], hint_base: 0, probe_n: 1, fns: vec![], specs: BTreeMap::new(), force_co: force_co.clone(), shape_results: vec![] };
     let mut pre: Vec<String> = vec![];
     let mut inside: Vec<String> = vec![];
     // the unit's own include order wins; includes of imported units that it does not list are appended
@@ -969,7 +974,7 @@ fn main() {
         let spec = &gen.specs[&f.path];
         let props = if spec.props.is_empty() { unit_props_for(&unit, &f.from_unit) } else { spec.props.clone() };
         jf.push(J::obj(vec![
-            ("path", J::s(&f.path)), ("src", J::s(&f.src)), ("src_line", J::n(f.src_line)), ("contract_only", J::B(f.contract_only)), ("unit", J::s(&f.from_unit)),
+            ("path", J::s(&f.path)), ("src", J::s(&f.src)), ("src_line", J::n(f.src_line)), ("contract_only", J::B(f.contract_only)), ("forced_contract_only", J::B(force_co.contains(&f.path))), ("unit", J::s(&f.from_unit)),
             ("props", J::A(props.iter().map(|p| J::s(p)).collect())),
             ("kind_props", J::O(spec.kind_props.iter().map(|(k, v)| (k.clone(), J::A(v.iter().map(|p| J::s(p)).collect()))).collect())),
             ("requires", J::A(spec.requires.iter().map(|c| J::s(c.trim())).collect())),
